@@ -382,6 +382,50 @@ def run(report, p):
                 f = p.func_of_node.get(id(n))
                 r2.check(False, f, n, "XML markup is assembled with an f-string around a variable value", construct=f"f-string markup {norm(n)[:60]}")
 
+    # ------------------------------------------------------------------ R10.7
+    r7 = report.rule(
+        "R10.7",
+        "between serialisation and the file nothing edits the text: the string writers hand the serialised XML to file.write through `.encode('utf-8')` and, at most, an indentation "
+        "that is inserted at the start of markup lines only (a regular expression anchored at `^` in MULTILINE mode with a look-ahead for `<`). A line-based edit of the whole string "
+        "(textwrap.indent, splitlines, strip, replace, expandtabs) also hits text VALUES: file names containing a line boundary character (U+2028, U+0085, a line feed) are written with extra characters in them",
+        2,
+    )
+    for fq, param in sw.items():
+        f = p.funcs[fq]
+        if not f.module.name.endswith("_xml_parser"):
+            continue
+        writes = [n for n in walk_no_nested(f.node) if isinstance(n, ast.Call) and isinstance(n.func, ast.Attribute) and n.func.attr == "write" and n.args]
+        for wcall in writes:
+            r7.instance(f, wcall, f"{f.name}: {norm(wcall)[:60]}")
+            e = wcall.args[0]
+            steps = 0
+            while steps < 8:
+                steps += 1
+                if isinstance(e, ast.Name) and e.id == param:
+                    r7.check(True, f, wcall, "")
+                    break
+                if isinstance(e, ast.Name):
+                    binds = [n for n in walk_no_nested(f.node) if isinstance(n, ast.Assign) and len(n.targets) == 1 and isinstance(n.targets[0], ast.Name) and n.targets[0].id == e.id]
+                    if len(binds) != 1:
+                        raise AnalysisError(f"{f.loc(wcall)}: the string written is bound more than once")
+                    e = binds[0].value
+                    continue
+                if isinstance(e, ast.Call) and isinstance(e.func, ast.Attribute) and e.func.attr == "encode":
+                    e = e.func.value
+                    continue
+                if isinstance(e, ast.Call) and norm(e.func) in ("re.sub",) and len(e.args) >= 3:
+                    pat = p.fold(e.args[0], f)
+                    flags = [k.value for k in e.keywords if k.arg == "flags"] + list(e.args[4:5])
+                    ok_pat = isinstance(pat, str) and pat.startswith("^") and "(?=" in pat and "<" in pat and not pat.startswith("^(?=.*")
+                    ok_flags = bool(flags) and "MULTILINE" in norm(flags[0]) and "DOTALL" not in norm(flags[0])
+                    r7.check(ok_pat and ok_flags, f, e, f"the indentation is inserted by `{norm(e)[:70]}`, which is not anchored at the start of markup lines only", construct=f"{f.name}: indentation pattern")
+                    e = e.args[2]
+                    continue
+                if isinstance(e, ast.Call) and (norm(e.func) in ("textwrap.indent", "textwrap.dedent", "textwrap.fill") or (isinstance(e.func, ast.Attribute) and e.func.attr in ("splitlines", "strip", "rstrip", "lstrip", "replace", "expandtabs", "translate", "title", "lower", "upper"))):
+                    r7.check(False, f, e, f"`{norm(e)[:60]}` edits the serialised document as a whole, text values included: Python's line splitting breaks at U+2028, U+0085, VT, FF ... as well as at line feeds, so a file or folder name that contains one of them is written with the indentation (or without the stripped characters) inside the name and is not recovered by any reader", construct=f"{f.name}: line-based edit of serialised XML ({norm(e.func)})")
+                    break
+                raise AnalysisError(f"{f.loc(wcall)}: how the string written derives from `{param}` is not understood: {norm(e)[:80]}")
+
     # ------------------------------------------------------------------ R10.3
     r3 = report.rule("R10.3", "path conversion pairing: every path-typed text is converted to POSIX on the way out and back to local form on the way in; both conversions are pure separator conversions (no normalisation, case folding or trimming)", 6)
     for doc in (mdoc, cdoc):
